@@ -2,7 +2,7 @@
 
    Transcribes, over exact rationals, on top of LinepartModel.v:
 
-     mpt++/value_store.cpp  maxsize                       (as coded: only the FIRST store is looked at)
+     mpt++/value_store.cpp  maxsize                       (AS PATCHED: the longest store of doubles)
      mpt++/linepart.cpp     linepart::array::set(len)     (all three cases: 0, < 0 "keep the total", > 0)
      mpt++/polyline.cpp     polyline::set, apply_data (with part records and without),
                             polyline::begin/end, iterator::operator++ / operator*, part::line / part::points
@@ -17,6 +17,9 @@
      docs/C18_polyline_no_first_store.diff  polyline::set fails (polyline unchanged) when maxsize() finds no values (-1)
      docs/C18_apply_data_noparts.diff   apply_data without parts keeps its point count per dimension
      docs/C18_apply_short_part.diff     apply<> tests usr (not raw) before it reads a second point
+     docs/C18_maxsize_all_stores.diff   maxsize() advances through the stores (the code looks at the first store only)
+     docs/C18_apply_data_remaining.diff apply_data compares a part with the REMAINING values of the dimension (the code:
+                                        with all of them), a part cut short that way loses its trim
 
    A value store is [SNone] (no data, or data of another type: skipped everywhere) or [SData r data]
    (doubles; [r] is the visible range the transformation has for this dimension).  Points are pairs of
@@ -34,12 +37,16 @@ Record pstate := mkps { vis : list part; pts : list (Q * Q) }.
 Definition sum_raw_m (ps : list part) : Z := fold_right (fun p a => raw p + a) 0 ps.
 Definition sum_usr_m (ps : list part) : Z := fold_right (fun p a => usr p + a) 0 ps.
 
-(* ---- value_store.cpp: maxsize(sl, traits) — [val] is never advanced ---- *)
-Definition maxsize (sts : list store) : Z :=
+(* ---- value_store.cpp: maxsize(sl, traits), as patched by docs/C18_maxsize_all_stores.diff ("++val" in the loop
+   header; the unpatched loop tests the FIRST store sl.size() times):
+     len = -1; for every store: no data / other content type -> continue; curr = element_count(); if (curr > len) len = curr ---- *)
+Fixpoint maxsize_from (len : Z) (sts : list store) : Z :=
   match sts with
-  | SData _ d :: _ => zlen d
-  | _ => -1
+  | [] => len
+  | SNone :: tl => maxsize_from len tl
+  | SData _ d :: tl => maxsize_from (if len <? zlen d then zlen d else len) tl
   end.
+Definition maxsize (sts : list store) : Z := maxsize_from (-1) sts.
 
 (* ---- linepart::array::set(len) ---- *)
 Definition array_set (olds : list part) (len : Z) : list part :=
@@ -107,19 +114,23 @@ Definition part_contrib (p : part) (src : list Q) : res (list Q) :=
     Ok (clip_from 0 u f l w)
   end.
 
-(* ---- apply_data, loop over the part records, one dimension: the share of every point ---- *)
+(* ---- apply_data, loop over the part records, one dimension: the share of every point ----
+   As patched by docs/C18_apply_data_remaining.diff: [max] is what is LEFT of the dimension at this part
+   ("if ((max -= lp[j].raw) <= 0) break;" - the unpatched loop keeps the whole length and reads behind the store
+   for a part near its end) and the copy that is cut short loses its trim ("tmp._trim = 0"). *)
 Fixpoint data_parts (ps : list part) (src : list Q) (max : Z) : res (list Q) :=
   match ps with
   | [] => Ok []
   | p :: tl =>
     if max <? usr p then
-      (* tmp = lp[j]; tmp.usr = max; apply; break *)
-      part_contrib (mkpart (raw p) (wrap16 max) (cut p) (trim p)) src
+      (* tmp = lp[j]; tmp.usr = max; tmp._trim = 0; apply; break *)
+      part_contrib (mkpart (raw p) (wrap16 max) (cut p) 0) src
     else
       match part_contrib p src with
       | Fault => Fault
       | Ok a =>
-        match data_parts tl (zskip (raw p) src) max with
+        if max - raw p <=? 0 then Ok a else
+        match data_parts tl (zskip (raw p) src) (max - raw p) with
         | Fault => Fault
         | Ok b => Ok (a ++ b)
         end
